@@ -267,16 +267,17 @@ def run_case(model, scratch, kind, idx, seed):
     rsum = X.summary(rerr)
     invB = X.inventory(s.treedir)
     changed_real = sorted(p for p in inv0 if inv0[p][0] != "d" and not X.entry_same(inv0[p], invB.get(p)))
+    # N6: a victim that is a symlink whose target is a victim too; the command on the link fails with ENOENT because it reaches
+    # through the link (the lock probe opens it for writing; move-by-copy reads it) after the target is gone
     n6 = False
-    if sym_in_report and not s.no_lock and s.op in ("remove", "move", "link", "softlink", "dedupe"):
-        # N6: a victim that is a symlink whose target is a victim too, and the lock probe through it failed
-        n6 = b"for write: No such file or directory" in rerr and any(
-            inv0.get(p, ("?",))[0] == "l" and X.resolve(inv0, p) not in (None, p) and X.resolve(inv0, p) not in invB
-            for g in groups for p in g["files"])
+    if sym_in_report and (b"for write: No such file or directory" in rerr or
+                          (b"Failed to copy file" in rerr and b"No such file or directory" in rerr)):
+        n6 = any(inv0.get(p, ("?",))[0] == "l" and X.resolve(inv0, p) not in (None, p) and X.resolve(inv0, p) not in invB
+                 for g in groups for p in g["files"])
     n6sig = {"kind": "symlink_victim_after_its_target"}
     if s.op != "dedupe" and changed_real != script_victims and not (s.op == "link" and set(changed_real) <= set(script_victims)):
         # (`link` of two names of one inode with --match-links changes nothing observable)
-        if not n6_possible(sym_in_report, s, rerr):
+        if not n6:
             viol({"kind": "script_files_differ_from_real_run"}, "files named by the dry-run script %r, files changed by the real run %r" % (
                 script_victims[:8], changed_real[:8]))
     if dsum is None or rsum is None:
@@ -337,10 +338,6 @@ def run_case(model, scratch, kind, idx, seed):
     return out
 
 
-def n6_possible(sym_in_report, s, rerr):
-    return sym_in_report and not s.no_lock and b"for write: No such file or directory" in rerr
-
-
 def m_dry(m):
     return m.get("dry", "0:0").split(":")
 
@@ -352,6 +349,9 @@ def run(ctx):
     ctx.assumptions = ["bash 5 and GNU coreutils as installed (ln without -s does not dereference, mv = rename on one file system)",
                        "`dedupe`: FICLONE is refused by the sandbox file system, so only its printed script and dry-run summary are compared",
                        "`move`: the printed script contains no mkdir, so it is not executed by bash (the property claims bash equivalence for remove / link only)"]
+    ctx.trusted += ["coq/driver/drv_X.ml", "vlib/props/x_common.py (generator, option semantics, comparisons)",
+                    "real bash and GNU coreutils as installed (rm, mv, ln, cp -a)",
+                    "engine T's quote / bash model (TextModel.v, tied to the code by C17), engines D and A (C08, C05)"]
     ctx.use_coq()
     core.build_fclones()
     model = core.build_model("X") if os.path.exists(os.path.join(core.COQ, "Extract_X.v")) else None
